@@ -115,6 +115,18 @@ impl Serialize for RotondaRoute {
 }
 
 impl RotondaRoute {
+    /// Whether `self` and `other` are routes for the same NLRI (same
+    /// address family and same prefix), regardless of their attributes.
+    pub fn same_nlri(&self, other: &RotondaRoute) -> bool {
+        match (self, other) {
+            (RotondaRoute::Ipv4Unicast(a, _), RotondaRoute::Ipv4Unicast(b, _)) => a == b,
+            (RotondaRoute::Ipv6Unicast(a, _), RotondaRoute::Ipv6Unicast(b, _)) => a == b,
+            (RotondaRoute::Ipv4Multicast(a, _), RotondaRoute::Ipv4Multicast(b, _)) => a == b,
+            (RotondaRoute::Ipv6Multicast(a, _), RotondaRoute::Ipv6Multicast(b, _)) => a == b,
+            _ => false,
+        }
+    }
+
     pub fn owned_map(
         &self,
     ) -> &routecore::bgp::path_attributes::OwnedPathAttributes {
